@@ -61,15 +61,38 @@ def run_pairs(case, ctx):
 
 GOOD_SUFFIX = ["", "-rc1", "-dirty", "-1", "-a.b"]
 MALFORMED = ["", "1", "1.2", "a.b.c", "1.x.3", "x.2.3", "1.2.y", "-1.2.3", "1.-2.3", ".", "..", "1.",
-             "v1.2.3", "1,2,3", "one.two.three", "1.2.3" + "0" * 70, "9" * 64, "1.2.0x10" if False else "1.2.z"]
+             "v1.2.3", "1,2,3", "one.two.three", "1.2.3" + "0" * 70, "9" * 64, "1.2.z",
+             "1.0x0.0", "0x1.0.0", "1.2.0x10", "1.0x10.0", "0x1.0x2.0x3"]
+
+
+def beyond(have):
+    """Well-formed looking strings that every reading refuses against `have`: a minor (or
+    major) that is larger than the provider's however it is read -- decimal with a leading
+    zero (12 > 11; an octal reading would give 10), or beyond the range of an int (a value
+    that only wraps around to a compatible one)."""
+    mj, mn = have[0], have[1]
+    return ["%d.0%d.0" % (mj, mn + 1), "%d.00%d.7" % (mj, mn + 1),
+            "%d.%d.0" % (mj, 2 ** 32), "%d.%d.0" % (mj, 2 ** 32 + mn), "%d.%d.0" % (2 ** 32 + mj, mn),
+            "%d.%d.0" % (mj, 2 ** 31), "%d.%d.0" % (mj, 2 ** 64 + mn), "%d.%d.0" % (mj, 2 ** 63)]
 
 
 @st.composite
 def strings(draw):
-    if draw(st.booleans()):
+    k = draw(st.integers(0, 4))
+    if k <= 1:
         t = [draw(st.integers(0, 9999)) for _ in range(3)]
         s = "%d.%d.%d%s" % (t[0], t[1], t[2], draw(st.sampled_from(GOOD_SUFFIX)))
         return {"s": s, "expect": t}
+    if k == 2:
+        # components at and beyond the range of an int: the exact numbers or a refusal,
+        # never a wrapped-around value
+        big = [2 ** 31 - 1, 2 ** 31, 2 ** 32, 2 ** 32 + draw(st.integers(0, 20)), 2 ** 63, 2 ** 64 + draw(st.integers(0, 20))]
+        t = [draw(st.one_of(st.integers(0, 9999), st.sampled_from(big))) for _ in range(3)]
+        s = "%d.%d.%d%s" % (t[0], t[1], t[2], draw(st.sampled_from(GOOD_SUFFIX)))
+        if max(t[0], t[1]) > 2 ** 31 - 1:
+            return {"s": s, "expect": None}
+        # the patch number takes no part in any decision: out of range it may be refused or kept
+        return {"s": s, "expect": t if t[2] <= 2 ** 31 - 1 else [t[0], t[1], -1]}
     return {"s": draw(st.sampled_from(MALFORMED)), "expect": None}
 
 
@@ -81,7 +104,10 @@ def run_parse(case, ctx):
     rc = int(f[0])
     if case["expect"] is None:
         if rc == 0:
-            raise Violation("malformed version %r parsed as %s" % (case["s"], f[1:]))
+            raise Violation("malformed or out-of-range version %r parsed as %s" % (case["s"], f[1:]))
+    elif case["expect"][2] == -1:
+        if rc == 0 and [int(x) for x in f[1:3]] != case["expect"][:2]:
+            raise Violation("version %r parsed as rc=%d %s" % (case["s"], rc, f[1:]))
     else:
         if rc != 0 or [int(x) for x in f[1:]] != case["expect"]:
             raise Violation("version %r parsed as rc=%d %s" % (case["s"], rc, f[1:]))
@@ -103,6 +129,8 @@ def enum_runtime(ctx):
     for s in MALFORMED + ["@NULL"]:
         yield {"mode": "check", "v": s}
         yield {"mode": "require", "v": s}
+    for s in beyond(have):
+        yield {"mode": "check", "v": s}
     for s in ["1.0.0", "0.0.1", "99.99.99", "2.4.0-rc1"]:
         yield {"mode": "require", "v": s}
 
@@ -159,7 +187,7 @@ def enum_emu(ctx):
             for mn in minors:
                 for pt in (0, have[2] + 3):
                     yield {"mode": "version", "model": name, "want": [mj, mn, pt]}
-        for s in ["", "1", "1.2", "a.b.c", "-1.0.0"]:
+        for s in ["", "1", "1.2", "a.b.c", "-1.0.0", "%d.0x%d.0" % (have[0], have[1]), "0x%d.%d.0" % (have[0], have[1])] + beyond(have):
             yield {"mode": "version", "model": name, "want": s}
     # several streams requiring the same model with different versions: every stream counts
     for name, (ch, have) in sorted(adv.items()):
